@@ -411,6 +411,76 @@ theorem exit_status (outcomes : List TrackerOutcome) :
     have := hall o ho
     cases o <;> simp_all
 
+theorem foldl_insert_mem (l : List Bytes) : ∀ (s : List Bytes) (y : Bytes),
+    y ∈ l.foldl (fun s x => insertSet x s) s ↔ y ∈ s ∨ y ∈ l := by
+  induction l with
+  | nil => intro s y; simp
+  | cons a t ih =>
+    intro s y
+    simp only [List.foldl_cons, ih, insertSet_mem, List.mem_cons]
+    constructor
+    · rintro ((h | h) | h) <;> simp [h]
+    · rintro (h | h | h) <;> simp [h]
+
+theorem outer_mono (os : List TrackerOutcome) : ∀ (s : List Bytes) (y : Bytes), y ∈ s →
+    y ∈ os.foldl (fun s o => match o with
+        | .peers l => l.foldl (fun s x => insertSet x s) s
+        | _ => s) s := by
+  induction os with
+  | nil => intro s y h; simpa using h
+  | cons o t ih =>
+    intro s y h
+    simp only [List.foldl_cons]
+    cases o with
+    | skipped => exact ih s y h
+    | announceFailed => exact ih s y h
+    | peers l0 => exact ih _ y ((foldl_insert_mem l0 s y).mpr (Or.inl h))
+
+/-- **Every record of every accepted reply is printed**, whatever the other trackers of the torrent did. -/
+theorem all_accepted_peers_printed (outcomes : List TrackerOutcome) (l : List Bytes) (x : Bytes)
+    (hl : TrackerOutcome.peers l ∈ outcomes) (hx : x ∈ l) : x ∈ (announceCommand outcomes).2 := by
+  unfold announceCommand
+  simp only
+  have outer : ∀ (os : List TrackerOutcome) (s : List Bytes), TrackerOutcome.peers l ∈ os →
+      x ∈ os.foldl (fun s o => match o with
+        | .peers l => l.foldl (fun s x => insertSet x s) s
+        | _ => s) s := by
+    intro os
+    induction os with
+    | nil => intro s h; simp at h
+    | cons o t ih =>
+      intro s h
+      simp only [List.foldl_cons]
+      rcases List.mem_cons.mp h with h1 | h2
+      · subst h1
+        exact outer_mono t _ x ((foldl_insert_mem l s x).mpr (Or.inr hx))
+      · cases o with
+        | skipped => exact ih s h2
+        | announceFailed => exact ih s h2
+        | peers l0 => exact ih _ h2
+  split
+  · rename_i he
+    rw [List.isEmpty_iff, List.filter_eq_nil_iff] at he
+    have := he _ hl
+    simp at this
+  · exact outer outcomes [] hl
+
+/-- a tracker's note does not depend on what the other trackers did -/
+theorem notes_append (a b : List TrackerOutcome) : announceNotes (a ++ b) = announceNotes a ++ announceNotes b := by
+  unfold announceNotes; exact List.filterMap_append
+
+/-- **Every tracker whose exchange failed is reported, and so is every skipped one**: one note per such tracker, in order,
+and none for a tracker that returned peers. -/
+theorem every_failure_reported (outcomes : List TrackerOutcome) :
+    (announceNotes outcomes).count .failed = outcomes.countP (fun o => match o with | .announceFailed => true | _ => false) ∧
+    (announceNotes outcomes).count .skipped = outcomes.countP (fun o => match o with | .skipped => true | _ => false) := by
+  induction outcomes with
+  | nil => simp [announceNotes]
+  | cons o t ih =>
+    have e : announceNotes (o :: t) = announceNotes [o] ++ announceNotes t := notes_append [o] t
+    rw [e, List.count_append, List.count_append, List.countP_cons, List.countP_cons, ih.1, ih.2]
+    cases o <;> simp [announceNotes, noteOf, Nat.add_comm, List.filterMap_cons]
+
 /-- **Non-UDP or port-less tracker URLs are skipped.** -/
 theorem non_udp_skipped (scheme : String) (hasHost hasPort : Bool) :
     screen scheme hasHost hasPort = .ok ↔ scheme = "udp" ∧ hasHost = true ∧ hasPort = true := by
@@ -424,5 +494,8 @@ example : connectReq 0x01020304 = [0, 0, 4, 0x17, 0x27, 0x10, 0x19, 0x80, 0, 0, 
 example : (exchange 16 16 0 7 [none, some ([0,0,0,0, 0,0,0,7, 1,2,3,4,5,6,7,8])]).1 = 2 := by decide +kernel
 example : records 6 [1,2,3,4,0,80, 5,6,7,8,1,0] = [[1,2,3,4,0,80], [5,6,7,8,1,0]] := by
   simp [records, chunks_cons_of_ne, chunks_nil]
+
+example : announceNotes [.announceFailed, .peers [[1]], .skipped, .announceFailed] = [.failed, .skipped, .failed] := by decide
+example : [1] ∈ (announceCommand [.announceFailed, .peers [[1]]]).2 := by decide
 
 end Imdlv.C12
